@@ -431,7 +431,7 @@ fn selftest() -> (u64, u64) {
 
 pub fn check(tier: Tier) -> i32 {
     let started = Instant::now();
-    let types: Vec<Ty> = tier.pick(vec![Ty::PointM, Ty::Polyline, Ty::PolygonZ, Ty::MultipointZ, Ty::Multipatch], ALL13.to_vec());
+    let types: Vec<Ty> = ALL13.to_vec();
     let mut units = vec![];
     for ty in &types {
         let k = reduced_set(*ty).len().min(3);
